@@ -752,10 +752,9 @@ func (s *State) applyFunction(name string, fn object.Object, args []object.Objec
 	}
 	if after != before {
 		log.Debugf("Cache miss for %s %v, %d get misses", function.CacheKey, args, after-before)
-		// Propagate the can't cache
-		if cantCache {
-			s.env.TriggerNoCache()
-		}
+		// The callee depends on outer state (or called a non cacheable extension): so does its caller.
+		s.env.TriggerNoCache()
+		_ = cantCache
 		return res
 	}
 	// Don't cache errors, as it could be due to binding for instance.
